@@ -1,7 +1,33 @@
 """C19 — domain equalisation interpolates onto the exact overlap at coarsest resolution."""
 import numpy as np
 from fractions import Fraction
-from common import F, rs, vs, ms, dyadic, close, call, Toks
+from common import F, rs, vs, ms, dyadic, close, call, Toks, as_given
+
+
+def gen_whole_domain(rv, kind, lo, hi):
+    """whole-number grid on [lo, hi] (wavelengths in nm are usually written as integers: arange(300, 701, 10))"""
+    lo, hi = int(lo), int(hi)
+    if kind == "uniform":
+        steps = [s_ for s_ in (1, 2, 3, 4, 5, 10, 20) if 2 * s_ <= hi - lo <= 24 * s_] or [max(1, (hi - lo) // 16)]
+        return np.arange(lo, hi + 1, int(rv.choice(steps)), dtype=np.float64)
+    inner = rv.integers(lo, hi + 1, size=int(rv.integers(3, 12)))
+    return np.unique(np.concatenate([[lo], inner, [hi]])).astype(np.float64)
+
+
+def given(rv, x, R, tag, kinds):
+    """the same values in another representation, never the harness's own buffer"""
+    y = as_given(rv, x, R, tag, kinds=kinds)
+    return y.copy(order="K") if isinstance(y, np.ndarray) and np.shares_memory(y, x) else y
+
+
+def give_domains(rv, doms, whole, R, kinds):
+    """whole-number domains: either ALL with an integer dtype (int64 / int32, as np.arange(300, 701, 10) gives) or each in a
+    representation of its own; other domains: layout variants only"""
+    if whole and rv.integers(2):
+        R.count("domains-given:all-integer-dtype")
+        return [d.astype(np.int32 if rv.integers(3) == 0 else np.int64) for d in doms]
+    R.count("domains-given:individually")
+    return [given(rv, d, R, "domain", kinds) for d in doms]
 
 
 def gen_domain(rng, kind, lo, hi):
@@ -25,7 +51,10 @@ def fib_text(fibs):
 def run(R):
     import dreye
     n = 160 if R.tier == "quick" else 3000
-    R.rule = ("tuples of 2-4 domains: equal, uniform, non-uniform, nested, partially overlapping, disjoint, unsorted; "
+    R.rule = ("tuples of 2-4 domains: equal, uniform, non-uniform, nested, partially overlapping, disjoint, unsorted; dyadic or "
+              "whole-number grids (nm written as integers), the latter handed in all with an integer dtype (int64/int32) or "
+              "individually as float / integer / strided view (/ list for the estimator); arrays as given / integer dtype when "
+              "whole / Fortran order / strided view - the model receives the values; "
               "arrays of rank 1-4 with the domain on any axis (per-array axes, int axis or default), stack/concatenate; "
               "steps that do not divide the overlap; estimator captures with a foreign domain; compared entry by entry with "
               "the exact model (domain and arrays, rtol 1e-12). Near-ties of overlap/step at a half-integer accept either "
@@ -40,6 +69,11 @@ def run(R):
         nd = int(rng.integers(2, 5)) if mode == "eq" else 2
         rel = str(rng.choice(["overlap", "overlap", "nested", "equal", "disjoint", "touching"]))
         base_lo = float(dyadic(rng, 0, 300, 1)); span = float(dyadic(rng, 4, 64, 1))
+        rv = R.rng(7, k)          # stream of the whole-number / representation variants
+        whole = bool(rv.integers(4) == 0)
+        if whole:
+            base_lo = float(np.round(base_lo)); span = float(np.ceil(span)) * float(rv.choice([1, 1, 4]))
+        R.count("values:%s" % ("whole-number-domains" if whole else "dyadic-domains"))
         doms = []
         for i in range(nd):
             kind = str(rng.choice(["uniform", "nonuniform"]))
@@ -53,9 +87,12 @@ def run(R):
                 lo = base_lo + span * 0.25; hi = base_lo + span * 0.75
             else:
                 lo = base_lo + float(dyadic(rng, 0, span / 2, 2)) * (i > 0); hi = lo + span * float(rng.choice([0.5, 1, 1.5]))
+            if whole:
+                lo = float(np.ceil(lo)); hi = max(float(np.floor(hi)), lo + 2.0)
+                doms.append(gen_whole_domain(rv, kind, lo, hi)); continue
             doms.append(np.asarray(gen_domain(rng, kind, lo, hi), dtype=float))
         unsorted = [bool(rng.integers(4) == 0) for _ in range(nd)]
-        c = dict(k=k, mode=mode, relation=rel, n_domains=nd, unsorted=unsorted)
+        c = dict(k=k, mode=mode, relation=rel, n_domains=nd, unsorted=unsorted, whole_number_domains=whole)
         R.count("mode:" + mode); R.count("relation:" + rel)
         if mode == "estimator":
             nf = int(rng.integers(2, 4)); ns = int(rng.integers(1, 4))
@@ -63,8 +100,12 @@ def run(R):
             sig = dyadic(rng, 0, 4, 4, size=(ns, len(doms[1])))
             if unsorted[1]:
                 p = rng.permutation(len(doms[1])); doms[1] = doms[1][p]; sig = sig[:, p]
+            if whole and rv.integers(2):
+                filt = np.round(filt); sig = np.round(sig)      # whole-number data may arrive with an integer dtype
             c.update(domains=doms, filters=filt, signals=sig)
-            st, out = call(lambda: dreye.ReceptorEstimator(filt, domain=doms[0]).capture(sig, domain=doms[1]))
+            D0, D1 = give_domains(rv, doms, whole, R, ("same", "int", "strided", "list"))
+            Fi = given(rv, filt, R, "array", ("same", "int", "fortran", "strided")); Si = given(rv, sig, R, "array", ("same", "int", "fortran", "strided"))
+            st, out = call(lambda: dreye.ReceptorEstimator(Fi, domain=D0).capture(Si, domain=D1))
             arrs = [filt, sig]; axes = [-1, -1]; axes_arg = None
             cases.append((c, st, out, doms, arrs, axes, None, False))
             continue
@@ -78,6 +119,8 @@ def run(R):
             ax = int(rng.integers(-r, r))
             shp[ax] = len(doms[i])
             a = dyadic(rng, -4, 4, 4, size=tuple(shp))
+            if whole and i % 2 == 0 and k % 2 == 0:
+                a = np.round(a)                                  # whole-number data may arrive with an integer dtype
             if unsorted[i]:
                 p = rng.permutation(len(doms[i])); doms[i] = doms[i][p]; a = np.take(a, p, axis=ax)
             arrs.append(a); axes.append(ax)
@@ -93,7 +136,11 @@ def run(R):
         stack = None; conc = False
         c.update(domains=doms, arrays=arrs, axes=axes_arg, fill_value=fill)
         R.count("axes:" + axes_mode)
-        st, out = call(dreye.equalize_domains, [d.copy() for d in doms], [a.copy() for a in arrs], axes=axes_arg, fill_value=fill)
+        doms_in = give_domains(rv, doms, whole, R, ("same", "int", "strided"))
+        arrs_in = [given(rv, a, R, "array", ("same", "int", "fortran", "strided")) for a in arrs]
+        st, out = call(dreye.equalize_domains, doms_in, arrs_in, axes=axes_arg, fill_value=fill)
+        if not (all(np.array_equal(np.asarray(x), y) for x, y in zip(doms_in, doms)) and all(np.array_equal(np.asarray(x), y) for x, y in zip(arrs_in, arrs))):
+            R.failA(dict(c), "frame condition: equalize_domains changed one of the arrays handed to it in place")
         cases.append((c, st, out, doms, arrs, axes, fill, True))
     # round 1: exact bounds
     for c, st, out, doms, arrs, axes, fill, is_eq in cases:
